@@ -5,10 +5,10 @@ NAME=$1; shift
 CHECKS=${@:-${NAME%%-*}}
 WT=/tmp/wt/try-$NAME-$$
 git -C /repo worktree add -q --detach $WT HEAD || exit 2
-(cd $WT && git apply /verif/seeded/$NAME/patch.diff) || { echo "patch does not apply"; git -C /repo worktree remove --force $WT; exit 2; }
+P=/verif/seeded/$NAME/patch.diff; [ -f $P ] || P=/verif/benign/$NAME/patch.diff; (cd $WT && git apply $P) || { echo "patch does not apply"; git -C /repo worktree remove --force $WT; exit 2; }
 for c in $CHECKS; do
   echo "== $c on seeded $NAME"
-  (cd /verif && VERIF_REPO=$WT VERIF_EVIDENCE_DIR=/tmp/try-evidence-$NAME-$$ ./check $c $TIER 2>&1 | grep -E "^VIOLATION|violations=|^INFRA" | cut -c1-220 | head -6)
+  (cd /verif && VERIF_PART=$VERIF_PART VERIF_REPO=$WT VERIF_EVIDENCE_DIR=/tmp/try-evidence-$NAME-$$ ./check $c $TIER 2>&1 | grep -E "^VIOLATION|violations=|^INFRA" | cut -c1-220 | head -6)
 done
 rm -rf /tmp/try-evidence-$NAME-$$
 git -C /repo worktree remove --force $WT
